@@ -57,6 +57,18 @@ def gen_cases(rng, tier):
                 evs.append(_recv(d, 10 * (d + 1) + 2, "b%d" % r, cid="c0", tt="l0"))
                 evs.append(_recv(d, 10 * (d + 1) + 1, "c%d" % r, cid="c0", tt="l0"))
             cases.append(["fork%d" % fk, "c10", setup, ",".join(evs)]); fk += 1
+    # a forked call in which one fork is let go (the losing fork's early dialog is released): the other forks keep receiving - in order,
+    # with gaps held and released - whatever was dropped next to them
+    for nf, gone in ((2, 0), (2, 1), (3, 1), (3, 0)):
+        setup = ",".join(["C:1"] + ["F:1"] * (nf - 1))
+        evs = [_recv(d, 10 * (d + 1), "a%d" % d, cid="c0", tt="l0") for d in range(nf)]
+        evs.append("X:%d" % gone)
+        for d in range(nf):
+            if d != gone:
+                evs.append(_recv(d, 10 * (d + 1) + 2, "b%d" % d, cid="c0", tt="l0"))
+                evs.append(_recv(d, 10 * (d + 1) + 1, "c%d" % d, cid="c0", tt="l0"))
+        evs.append(_recv(gone, 10 * (gone + 1) + 1, "g0", cid="c0", tt="l0"))          # the released fork's peer: no dialog any more
+        cases.append(["fork%d" % fk, "c10", setup, ",".join(evs)]); fk += 1
     # usages come and go while the dialog lives: a request is offered to exactly the usages whose guard is alive at that moment
     uk = 0
     for seq in (["U", "D:0", "U", "R"], ["D:0", "U", "R", "D:1", "R"], ["U", "U", "D:1", "U", "R", "D:3", "R", "D:0", "R"], ["D:0", "D:1", "U", "R"], ["U", "D:2", "D:0", "U", "U", "R", "D:1", "R"],
@@ -229,6 +241,9 @@ def oracle(case, impl):
             if u in st[d]["usages"]:
                 st[d]["usages"].remove(u)
             continue
+        if e[0] == "X":
+            st[int(e[1])]["gone"] = True
+            continue
         if e[0] == "K":
             if o != "-":
                 out.append("register_usage for a dialog that does not exist returned a guard (%s)" % o)
@@ -244,6 +259,8 @@ def oracle(case, impl):
         for i in range(len(setup)):
             if cid == "c%d" % setup[i]["owner"] and ft == "p%d" % i and tt == "l%d" % setup[i]["owner"]:
                 d = i
+        if d is not None and st[d].get("gone"):
+            d = None            # the dialog was released: its identifiers name nothing any more
         if d is None:
             if o != "N":
                 out.append("request %s does not belong to any dialog but was intercepted: %s" % (rid, o))
@@ -285,13 +302,35 @@ def oracle(case, impl):
         if o != want:
             out.append("dialog %d: expected delivery %s, got %s" % (d, want, o))
     parked = sum(len(s["parked"]) for s in st)
-    if obs[-1] != "B=%d/%d" % (len(setup), parked):
-        out.append("tables: expected B=%d/%d, got %s" % (len(setup), parked, obs[-1]))
+    alive = len([1 for x in st if not x.get("gone")])
+    if obs[-1] != "B=%d/%d" % (alive, parked):
+        out.append("tables: expected B=%d/%d, got %s" % (alive, parked, obs[-1]))
     return out[:1] if out else []
+
+
+def model_case(case, impl):
+    if "X:" not in case[3]:
+        return case
+    gone = set()
+    out = []
+    for e in case[3].split(","):
+        p = e.split(":")
+        if p[0] == "X":
+            gone.add(int(p[1]))
+            out.append("K:9")          # no effect in the model
+        elif p[0] == "R" and any(p[2] == "p%d" % g for g in gone) :
+            out.append(":".join([p[0], "cgone"] + p[2:]))
+        else:
+            out.append(e)
+    return case[:3] + [",".join(out)] + case[4:]
 
 
 def normalize_model(case, s):
     import re
+    if "X:" in case[3]:
+        # the model keeps the released dialog's (empty) entry: count it out
+        n = case[3].count("X:")
+        s = re.sub(r"B=(\d+)/", lambda m: "B=%d/" % (int(m.group(1)) - n), s.strip())
     # a delivery to an empty set of usages is observed as the dialog layer's own answers
     return ";".join(re.sub(r"^V:\d+::", "Z:", o) for o in s.strip().split(";"))
 
